@@ -6,7 +6,10 @@ import (
 	"math"
 
 	"github.com/aclements/go-moremath/internal/vx"
+	"github.com/aclements/go-moremath/mathx"
 )
+
+var mathxBetaInc = mathx.BetaInc
 
 // VxC05_Delta: DeltaDist is the unit step at T with quantile T (bit-precise, all floats).
 // C05: "DeltaDist is the unit step at T with quantile T."
@@ -113,4 +116,44 @@ func VxC05_NormalMonotone() {
 	vx.Assert(c1 <= c2, "CDF is non-decreasing")
 	vx.Assert(c1 >= 0 && c2 <= 1, "CDF values lie in [0,1]")
 	vx.Assert(n.PDF(x1) >= 0, "PDF is non-negative")
+}
+
+
+// vxBetaIncFn: the incomplete beta function as an uninterpreted function (same symbol in the code and in the reference).
+func vxBetaIncFn(x, a, b float64) float64 { return vx.UFloat("betaincfn", x, a, b) }
+
+// VxC05_Formulas: the t and normal CDF/PDF are the stated functions of the underlying special
+// functions: CDF_t(x) = 1 - I_{V/(V+x^2)}(V/2, 1/2)/2 for x > 0 (reflected for x < 0), CDF_normal(x) =
+// erfc(-(x-Mu)/(Sigma sqrt 2))/2, for every parameter value - no parameter range takes a different route.
+// A satisfying assignment is confirmed natively with the real special functions to 1e-9.
+//
+//vx:mode R
+//vx:solver z3
+//vx:stub mathx.BetaInc = vxBetaIncFn
+//vx:bound any reals V > 0, x, Mu, Sigma > 0; BetaInc, erfc, exp uninterpreted (congruence only)
+//vx:outside the accuracy of BetaInc/erfc themselves
+func VxC05_Formulas() {
+	v, x := vx.Float("V"), vx.Float("x")
+	vx.Assume(vx.And(v >= 0.1, v <= 1e4))
+	vx.Assume(vx.And(x >= -40, x <= 40))
+	t := TDist{v}
+	var want float64
+	ax := math.Abs(x)
+	upper := 1 - 0.5*mathxBetaInc(v/(v+ax*ax), v/2, 0.5)
+	switch {
+	case x == 0:
+		want = 0.5
+	case x > 0:
+		want = upper
+	default:
+		want = 1 - upper
+	}
+	vx.Assert(vx.Close(t.CDF(x), want, 1e-9, 1e-9), "the t CDF is 1 - I(V/(V+x^2); V/2, 1/2)/2 above the centre and its reflection below, for every V")
+	mu, sigma := vx.Float("Mu"), vx.Float("Sigma")
+	vx.Assume(vx.And(sigma >= 1e-6, sigma <= 1e6))
+	vx.Assume(vx.And(mu >= -1e6, mu <= 1e6))
+	n := NormalDist{mu, sigma}
+	z := mu + x*sigma
+	vx.Assert(vx.Close(n.CDF(z), math.Erfc(-(z-mu)/(sigma*math.Sqrt2))/2, 1e-9, 1e-12), "the normal CDF is erfc(-(x-Mu)/(Sigma sqrt 2))/2")
+	vx.Assert(vx.Close(n.PDF(z), math.Exp(-(z-mu)*(z-mu)/(2*sigma*sigma))*invSqrt2Pi/sigma, 1e-9, 1e-300), "the normal PDF is exp(-(x-Mu)^2/(2 Sigma^2))/(Sigma sqrt(2 pi))")
 }
